@@ -1,4 +1,5 @@
 import SdxProofs.FlattenLemmas
+import SdxProofs.CounterLemmas
 import Mathlib.Tactic.Linarith
 set_option linter.unusedSectionVars false
 /-!
@@ -39,9 +40,9 @@ example : compactIntervals ⟨2, 5⟩ ⟨2, 5⟩ 6 = .ok (some (⟨2, 3⟩, ⟨2
 section
 variable {α : Type} [Field α] [LinearOrder α] [IsStrictOrderedRing α] [FloorRing α]
 
-theorem ofInt_sumNat (l : List Nat) : (ofInt (Int.ofNat (sumNat l)) : α) = sumα l := by
+theorem cast_sumNat (l : List Nat) : ((sumNat l : ℕ) : α) = sumα l := by
   unfold sumNat sumα toα
-  suffices h : ∀ acc : Nat, (((l.foldl (· + ·) acc : Nat) : ℤ) : α) = ((acc : ℤ) : α) + (l.map fun (c : Nat) => ((c : ℤ) : α)).sum by
+  suffices h : ∀ acc : Nat, ((l.foldl (· + ·) acc : Nat) : α) = (acc : α) + (l.map fun (c : Nat) => ((c : ℤ) : α)).sum by
     simpa using h 0
   induction l with
   | nil => intro acc; simp
@@ -58,8 +59,8 @@ theorem flattenCore_fields (E : Env α) (ap : AnonParams α) (bs : UInt64) (sort
     (flattenCore E ap bs sorted un oc tc).flattening = flatteningOf (cs.take oc) (topAvgOf cs oc tc) ∧
     (flattenCore E ap bs sorted un oc tc).flattenedCount =
       flatSumOf cs oc tc + max (((un : ℤ) : α) - flatteningOf (cs.take oc) (topAvgOf cs oc tc)) 0 := by
-  simp only [flattenCore, flatSumOf, topAvgOf, ofInt_sumNat, smax_eq_max, ofInt_eq, Int.cast_zero, Int.ofNat_eq_natCast,
-    Int.cast_natCast, and_self]
+  simp only [flattenCore, flatSumOf, topAvgOf, smax_eq_max, ofInt_eq, Int.cast_zero, Int.ofNat_eq_natCast,
+    Int.cast_natCast, cast_sumNat, and_self]
 
 /-- T04.b  For contributions sorted decreasingly, `oc` flattened outliers and a top group of `tc > 0`
 entities inside the list, the noise-free part of the released count is
@@ -81,7 +82,7 @@ theorem C04_flattened_sum_bounds (cs : List Nat) (oc tc : Nat) (m M : α)
     exact fun a ha b hb => (List.pairwise_append.mp hsorted).2.2 a ha b hb
   have htopsub : ∀ b ∈ top, b ∈ cs.drop oc := fun b hb => List.mem_of_mem_take hb
   -- the average is at most every outlier contribution, at least m, at most M
-  have havg_def : topAvgOf (α := α) cs oc tc = sumα top / (top.length : α) := by simp [topAvgOf, htop, htoplen]
+  have havg_def : topAvgOf (α := α) cs oc tc = sumα top / (top.length : α) := by rw [htoplen]; rfl
   have havg_le : ∀ a ∈ cs.take oc, topAvgOf (α := α) cs oc tc ≤ ((a : ℤ) : α) := by
     intro a ha
     rw [havg_def]
@@ -95,18 +96,25 @@ theorem C04_flattened_sum_bounds (cs : List Nat) (oc tc : Nat) (m M : α)
   have hF : flatSumOf (α := α) cs oc tc = (oc : α) * topAvgOf cs oc tc + sumα (cs.drop oc) := by
     unfold flatSumOf
     rw [flatteningOf_of_ge _ _ havg_le, htake_len]
-    conv_lhs => rw [hsplit, sumα_append]
-    ring
+    have hsum : sumα (α := α) cs = sumα (cs.take oc) + sumα (cs.drop oc) := by
+      rw [← sumα_append, List.take_append_drop]
+    rw [hsum]; ring
   refine ⟨hF, ?_, ?_⟩
   · rw [hF]
-    conv_lhs => rw [hsplit, List.map_append, List.sum_append]
+    have hs : (cs.map fun (c : Nat) => min (((c : ℤ) : α)) m).sum =
+        ((cs.take oc).map fun (c : Nat) => min (((c : ℤ) : α)) m).sum + ((cs.drop oc).map fun (c : Nat) => min (((c : ℤ) : α)) m).sum := by
+      rw [← List.sum_append, ← List.map_append, List.take_append_drop]
+    rw [hs]
     have h1 := sum_min_le_of_le (cs.take oc) m
     have h2 := sum_min_le_sum (cs.drop oc) m
     rw [htake_len] at h1
     have : (oc : α) * m ≤ (oc : α) * topAvgOf cs oc tc := by gcongr
     linarith
   · rw [hF]
-    conv_rhs => rw [hsplit, List.map_append, List.sum_append]
+    have hs : (cs.map fun (c : Nat) => min (((c : ℤ) : α)) M).sum =
+        ((cs.take oc).map fun (c : Nat) => min (((c : ℤ) : α)) M).sum + ((cs.drop oc).map fun (c : Nat) => min (((c : ℤ) : α)) M).sum := by
+      rw [← List.sum_append, ← List.map_append, List.take_append_drop]
+    rw [hs]
     have h1 := sum_min_ge_of_ge (cs.take oc) M _ havg_le hle_M
     have h2 := sum_min_eq_of_le (cs.drop oc) M hM
     rw [htake_len] at h1
@@ -128,5 +136,131 @@ theorem C04_id_less_rows (E : Env α) (ap : AnonParams α) (bs : UInt64) (sorted
       · linarith
       · exact_mod_cast Nat.zero_le un
     linarith
+
+end
+
+section
+variable {α : Type} [Field α] [LinearOrder α] [IsStrictOrderedRing α] [FloorRing α]
+
+/-- `flattenCore` in closed form -/
+theorem flattenCore_eq (E : Env α) (ap : AnonParams α) (bs : UInt64) (sorted : List (UInt64 × Nat)) (un oc tc : Nat) :
+    flattenCore E ap bs sorted un oc tc =
+      (let cs := sorted.map (·.2)
+       let avg : α := topAvgOf cs oc tc
+       let fl := flatteningOf (cs.take oc) avg
+       let sd := ap.noiseSd * max (flatSumOf cs oc tc / (sorted.length : α)) (1 / 2 * avg)
+       ⟨flatSumOf cs oc tc + max (((un : ℤ) : α) - fl) 0, fl, sd,
+        generateNoise E ap.salt "noise" sd [bs, xorAll (sorted.map (·.1))]⟩) := by
+  simp only [flattenCore, flatSumOf, topAvgOf, smax_eq_max, ofInt_eq, Int.cast_zero, Int.ofNat_eq_natCast,
+    Int.cast_natCast, cast_sumNat, Int.cast_one, Int.cast_ofNat]
+
+theorem flatteningOf_append (a b : List Nat) (avg : α) :
+    flatteningOf (a ++ b) avg = flatteningOf a avg + flatteningOf b avg := by
+  simp [flatteningOf_eq_sum]
+
+theorem randomUniform_range (iv : FlatInterval) (seed : UInt64) (h : iv.lower ≤ iv.upper) :
+    iv.lower ≤ randomUniform iv seed ∧ randomUniform iv seed ≤ iv.upper := by
+  unfold randomUniform
+  have hpos : (0 : Int) < iv.upper - iv.lower + 1 := by omega
+  have h1 := Int.emod_nonneg (seed.toNat : Int) (ne_of_gt hpos)
+  have h2 := Int.emod_lt_of_pos (seed.toNat : Int) hpos
+  omega
+
+/-- the part of T04.c that is arithmetic: for fixed `oc ≥ |hd|`, `tc > 0`, replacing the heaviest entities `hd`
+by `hd'` (same ids, any contributions that stay at least as large as every other entity's) changes neither the
+flattened count nor the noise scale nor the noise — when every row carries an id (`unaccounted = 0`). -/
+theorem flattenCore_heaviest_invariant (E : Env α) (ap : AnonParams α) (bs : UInt64) (hd hd' tl : List (UInt64 × Nat))
+    (oc tc : Nat) (hlen : hd.length = hd'.length) (hk : hd.length ≤ oc) (htc : 0 < tc)
+    (hfit : oc + tc ≤ (hd ++ tl).length)
+    (hpids : (hd.map (·.1)).Perm (hd'.map (·.1)))
+    (hge : ∀ a ∈ hd, ∀ b ∈ tl, b.2 ≤ a.2) (hge' : ∀ a ∈ hd', ∀ b ∈ tl, b.2 ≤ a.2) :
+    (flattenCore E ap bs (hd ++ tl) 0 oc tc).flattenedCount = (flattenCore E ap bs (hd' ++ tl) 0 oc tc).flattenedCount ∧
+    (flattenCore E ap bs (hd ++ tl) 0 oc tc).noiseSd = (flattenCore E ap bs (hd' ++ tl) 0 oc tc).noiseSd ∧
+    (flattenCore E ap bs (hd ++ tl) 0 oc tc).noise = (flattenCore E ap bs (hd' ++ tl) 0 oc tc).noise := by
+  -- a statement about one decomposition, used for both sides
+  have key : ∀ (h : List (UInt64 × Nat)), h.length = hd.length → (∀ a ∈ h, ∀ b ∈ tl, b.2 ≤ a.2) →
+      topAvgOf (α := α) ((h ++ tl).map (·.2)) oc tc = sumα (((tl.map (·.2)).drop (oc - hd.length)).take tc) / (tc : α) ∧
+      flatSumOf (α := α) ((h ++ tl).map (·.2)) oc tc =
+        sumα (tl.map (·.2)) + (hd.length : α) * (sumα (((tl.map (·.2)).drop (oc - hd.length)).take tc) / (tc : α))
+          - flatteningOf ((tl.map (·.2)).take (oc - hd.length)) (sumα (((tl.map (·.2)).drop (oc - hd.length)).take tc) / (tc : α)) := by
+    intro h hl hg
+    have hk' : (h.map (·.2)).length ≤ oc := by simp [hl]; exact hk
+    have hdrop : ((h ++ tl).map (·.2)).drop oc = (tl.map (·.2)).drop (oc - hd.length) := by
+      rw [List.map_append, List.drop_append, List.drop_of_length_le hk']; simp [hl]
+    have htake : ((h ++ tl).map (·.2)).take oc = h.map (·.2) ++ (tl.map (·.2)).take (oc - hd.length) := by
+      rw [List.map_append, List.take_append, List.take_of_length_le hk']; simp [hl]
+    have havg : topAvgOf (α := α) ((h ++ tl).map (·.2)) oc tc = sumα (((tl.map (·.2)).drop (oc - hd.length)).take tc) / (tc : α) := by
+      unfold topAvgOf; rw [hdrop]
+    refine ⟨havg, ?_⟩
+    set top := ((tl.map (·.2)).drop (oc - hd.length)).take tc with htop
+    have htoplen : top.length = tc := by
+      simp only [htop, List.length_take, List.length_drop, List.length_map]
+      simp only [List.length_append] at hfit; omega
+    have hne : top ≠ [] := by intro hh; rw [hh] at htoplen; simp at htoplen; omega
+    have hle : ∀ (c : Nat), c ∈ h.map (·.2) → sumα top / (tc : α) ≤ ((c : ℤ) : α) := by
+      intro c hc
+      obtain ⟨a, ha, rfl⟩ := List.mem_map.mp hc
+      have := (avg_bounds top (0 : α) (((a.2 : ℕ) : ℤ) : α) hne (fun b _ => by positivity) (fun b hb => by
+        have hb1 : b ∈ tl.map (·.2) := List.mem_of_mem_drop (List.mem_of_mem_take hb)
+        obtain ⟨b', hb', rfl⟩ := List.mem_map.mp hb1
+        exact_mod_cast hg a ha b' hb')).2
+      rwa [htoplen] at this
+    unfold flatSumOf
+    rw [havg, htake, flatteningOf_append, flatteningOf_of_ge _ _ hle, List.map_append, sumα_append]
+    simp only [List.length_map, hl]
+    ring
+  obtain ⟨ha1, ha2⟩ := key hd rfl hge
+  obtain ⟨hb1, hb2⟩ := key hd' hlen.symm hge'
+  have hxor : xorAll ((hd ++ tl).map (·.1)) = xorAll ((hd' ++ tl).map (·.1)) := by
+    apply xorAll_perm; simp only [List.map_append]; exact hpids.append_right _
+  have hlen2 : (hd ++ tl).length = (hd' ++ tl).length := by simp [hlen]
+  rw [flattenCore_eq, flattenCore_eq]
+  simp only
+  have hfl : ∀ s : List (UInt64 × Nat), max ((((0 : ℕ) : ℤ) : α) - flatteningOf ((s.map (·.2)).take oc) (topAvgOf (s.map (·.2)) oc tc)) 0 = 0 := by
+    intro s
+    apply max_eq_right
+    have := flatteningOf_nonneg (α := α) ((s.map (·.2)).take oc) (topAvgOf (s.map (·.2)) oc tc)
+    simp only [Nat.cast_zero, Int.cast_zero]; linarith
+  rw [hfl, hfl, ha1, ha2, hb1, hb2, hxor, hlen2]
+  exact ⟨rfl, rfl, rfl⟩
+
+end
+
+section
+variable {α : Type} [Field α] [LinearOrder α] [IsStrictOrderedRing α] [FloorRing α]
+
+/-- T04.c  When every row carries an entity id, the released count does not change at all if the
+`k ≤ outlier.lower` heaviest entities `hd` contribute arbitrarily more rows (`hd'`: same ids, contributions
+still at least every other entity's — which is what "more rows" gives on a decreasingly sorted list):
+the seeded numbers of outliers and top entities, the flattened count, the noise scale and the noise are
+all unchanged. `oi`, `ti` are the compacted intervals (so `oi.upper + ti.upper ≤` number of entities). -/
+theorem C04_heaviest_invariance (E : Env α) (ap : AnonParams α) (bs : UInt64) (oi ti : FlatInterval)
+    (hd hd' tl : List (UInt64 × Nat)) (hlen : hd.length = hd'.length)
+    (hk : (hd.length : Int) ≤ oi.lower) (ho : oi.lower ≤ oi.upper) (ht1 : 1 ≤ ti.lower) (ht : ti.lower ≤ ti.upper)
+    (hfit : oi.upper + ti.upper ≤ ((hd ++ tl).length : Int))
+    (hpids : (hd.map (·.1)).Perm (hd'.map (·.1)))
+    (hge : ∀ a ∈ hd, ∀ b ∈ tl, b.2 ≤ a.2) (hge' : ∀ a ∈ hd', ∀ b ∈ tl, b.2 ≤ a.2) :
+    (flattenSorted E ap bs oi ti (hd ++ tl) 0).flattenedCount = (flattenSorted E ap bs oi ti (hd' ++ tl) 0).flattenedCount ∧
+    (flattenSorted E ap bs oi ti (hd ++ tl) 0).noiseSd = (flattenSorted E ap bs oi ti (hd' ++ tl) 0).noiseSd ∧
+    (flattenSorted E ap bs oi ti (hd ++ tl) 0).noise = (flattenSorted E ap bs oi ti (hd' ++ tl) 0).noise := by
+  have hn : hd.length ≤ (oi.upper + ti.upper).toNat := by omega
+  have hseed : xorAll (((hd ++ tl).take (oi.upper + ti.upper).toNat).map (·.1)) =
+      xorAll (((hd' ++ tl).take (oi.upper + ti.upper).toNat).map (·.1)) := by
+    apply xorAll_perm
+    have e1 : (hd ++ tl).take (oi.upper + ti.upper).toNat = hd ++ tl.take ((oi.upper + ti.upper).toNat - hd.length) := by
+      rw [List.take_append, List.take_of_length_le hn]
+    have e2 : (hd' ++ tl).take (oi.upper + ti.upper).toNat = hd' ++ tl.take ((oi.upper + ti.upper).toNat - hd.length) := by
+      rw [List.take_append, List.take_of_length_le (by omega), ← hlen]
+    rw [e1, e2]
+    simp only [List.map_append]
+    exact hpids.append_right _
+  unfold flattenSorted
+  simp only [hseed]
+  set s := saltedSeed E ap.salt (xorAll (((hd' ++ tl).take (oi.upper + ti.upper).toNat).map (·.1)))
+  obtain ⟨o1, o2⟩ := randomUniform_range oi (mixSeed E "outlier" s) ho
+  obtain ⟨t1, t2⟩ := randomUniform_range ti (mixSeed E "top" s) ht
+  apply flattenCore_heaviest_invariant E ap bs hd hd' tl _ _ hlen (by omega) (by omega) _ hpids hge hge'
+  have : ((hd ++ tl).length : Int) = (hd ++ tl).length := rfl
+  omega
 
 end
